@@ -159,6 +159,12 @@ Definition check_equiv tg c1 c2 (e1 e2 : expr) : bool :=
 Definition equiv_residual tg c1 c2 (e1 e2 : expr) : option nat :=
   match equiv_nf tg c1 c2 e1 e2 with Some n => Some (length (nf_residual n)) | None => None end.
 
+(* number of distinct normal-form keys of an expression after applying the
+   certificate: smaller than the number of terms iff the validator merged two
+   terms (which are then proved equal up to a factor). *)
+Definition merged_size tg c (e : expr) : option nat :=
+  match expand_all tg e c with Some l => Some (length (build_nf tg l)) | None => None end.
+
 (* ================= soundness ================= *)
 Section Sound.
 Variable S : Scalar.
